@@ -437,11 +437,20 @@ pub fn run(prop: &str, tier: &str, seed: u64) -> Report {
         total.inconclusive.push("no RSA key fixtures found".into());
         return total;
     }
-    for &p in protos {
-        let cases = build_cases(p, tier, seed, &pools);
-        let r = parallel(cases.len(), util::threads(), |i, r| run_case(&cases[i], r, prop));
-        total.merge(r);
+    // the cases of all protocols are interleaved, so that every worker thread (and thread-local / process-wide state in the
+    // library) sees all protocols in turn instead of one protocol per thread
+    let per: Vec<Vec<Case>> = protos.iter().map(|&p| build_cases(p, tier, seed, &pools)).collect();
+    let longest = per.iter().map(|v| v.len()).max().unwrap_or(0);
+    let mut cases: Vec<&Case> = Vec::new();
+    for i in 0..longest {
+        for v in &per {
+            if let Some(c) = v.get(i) {
+                cases.push(c);
+            }
+        }
     }
+    let r = parallel(cases.len(), util::threads(), |i, r| run_case(cases[i], r, prop));
+    total.merge(r);
     // ONE core builder object sealed from several times (configured once, and re-configured before each seal)
     let mut rr = Report::new();
     let mut rng = Rng::new(seed, "c01-core-reuse", 0);
